@@ -14,6 +14,7 @@ import (
 	"github.com/feichai0017/NoKV/file"
 	"github.com/feichai0017/NoKV/kv"
 	"github.com/feichai0017/NoKV/utils"
+	"github.com/feichai0017/NoKV/utils/verifhook"
 	"github.com/feichai0017/NoKV/vfs"
 	pkgerrors "github.com/pkg/errors"
 )
@@ -46,6 +47,7 @@ func (m *Manager) appendPayload(payload []byte) (*kv.ValuePtr, error) {
 	}
 	store.Lock.Lock()
 	err = store.Write(start, payload)
+	verifhook.Crash("vlog.append")
 	store.Lock.Unlock()
 	if err != nil {
 		return nil, err
@@ -183,6 +185,7 @@ func (m *Manager) AppendEntries(entries []*kv.Entry, writeMask []bool) ([]kv.Val
 			releaseBuffers()
 			return nil, err
 		}
+		verifhook.Crash("vlog.append")
 		ptrs[i] = kv.ValuePtr{
 			Fid:    fid,
 			Offset: offset,
